@@ -42,9 +42,14 @@ type Case struct {
 	// live only: at StallAtMs the peer stops reading for StallMs (the client's writes block: back-pressure) and sends Burst pings at
 	// once; every one of them is still answered, in order, when the writes flow again (seeded change C15/m3: pings arriving while
 	// the pong writer was blocked were dropped beyond a small queue)
-	StallAtMs int `json:"stall_at_ms,omitempty"`
-	StallMs   int `json:"stall_ms,omitempty"`
-	Burst     int `json:"burst,omitempty"`
+	// live only: LateAnswerMs > 0: application requests (metadata) are issued with a context that ends after AbandonMs while the
+	// broker answers them LateAnswerMs later: answers nobody waits for any more must not get in the way of the pongs (seeded change
+	// C15/m5: such an answer blocked the dispatcher, the next ping timed out and a live peer was dropped)
+	LateAnswerMs int `json:"late_answer_ms,omitempty"`
+	AbandonMs    int `json:"abandon_ms,omitempty"`
+	StallAtMs    int `json:"stall_at_ms,omitempty"`
+	StallMs      int `json:"stall_ms,omitempty"`
+	Burst        int `json:"burst,omitempty"`
 }
 
 type result struct {
@@ -70,6 +75,13 @@ func runOnce(c Case) (*result, *ev.Failure) {
 	silentAt = t0
 	firstInc := int32(-1)
 	b.Hook = func(inc *sim.Inc, e *sim.Entry) sim.Verdict {
+		if _, isMeta := e.Msg.(*message.UpstreamMetadata); isMeta && c.LateAnswerMs > 0 && c.Mode == "live" {
+			go func() {
+				time.Sleep(time.Duration(c.LateAnswerMs) * time.Millisecond)
+				b.HandleDefault(inc, e)
+			}()
+			return sim.Handled
+		}
 		p, ok := e.Msg.(*message.Ping)
 		if !ok {
 			return sim.Default
@@ -187,6 +199,25 @@ func runOnce(c Case) (*result, *ev.Failure) {
 			case <-stop:
 			}
 			inc0.Link.ResumeWrites()
+		}()
+	}
+	if c.LateAnswerMs > 0 && c.Mode == "live" {
+		go func() {
+			for i := 0; i < 6; i++ {
+				select {
+				case <-stop:
+					return
+				default:
+				}
+				ctx, cancel := sim.Ctx(time.Duration(c.AbandonMs) * time.Millisecond)
+				if wconn != nil {
+					wconn.SendUpstreamMetadata(ctx, &message.UpstreamMetadata{Metadata: &message.BaseTime{Name: "abandoned", BaseTime: time.Unix(1, 0)}})
+				} else {
+					iconn.SendMetadata(ctx, &message.BaseTime{Name: "abandoned", BaseTime: time.Unix(1, 0)})
+				}
+				cancel()
+				time.Sleep(time.Duration(c.LateAnswerMs) * time.Millisecond)
+			}
 		}()
 	}
 	if c.Traffic {
@@ -330,6 +361,11 @@ func gen(t *rapid.T) Case {
 		n := rapid.IntRange(0, 5).Draw(t, "nbp")
 		for i := 0; i < n; i++ {
 			c.BrokerPing = append(c.BrokerPing, rapid.IntRange(0, 25*c.IntervalMs).Draw(t, "at"))
+		}
+		if rapid.IntRange(0, 2).Draw(t, "lateanswer") == 0 {
+			c.AbandonMs = rapid.SampledFrom([]int{1, 5, 15}).Draw(t, "abandon")
+			c.LateAnswerMs = c.AbandonMs + rapid.SampledFrom([]int{10, 40, 90}).Draw(t, "lateby")
+			c.Traffic = false // the ordinary traffic loop uses 1 s deadlines and would queue behind the late answers
 		}
 		if rapid.IntRange(0, 2).Draw(t, "stall") == 0 {
 			c.TimeoutMs = 400
